@@ -185,8 +185,13 @@ def judge_with(cfg, fault, kinds, m, o):
             return "wrong-image: the program ran with %s different from the configuration" % d["img"][4:]
         if effective:
             return "fault-swallowed: a step failed (%s) and spawn returned Ok" % ",".join(effective)
-        if d["status"] != "0" or d["status2"] != d["status"] or d["waits"] != "1":
-            return "wait-status: wait=%s, again=%s, wait4 calls=%s" % (d["status"], d["status2"], d["waits"])
+        # the harness polls once (try_wait) right after spawn, then waits twice and polls again: the poll costs one
+        # wait4, the first wait one more iff the poll found the child still running, later calls are served from the cache
+        want_waits = "2" if d.get("pre") == "running" else "1"
+        if d["status"] != "0" or d["status2"] != d["status"] or d["waits"] != want_waits or d.get("pre") == "err":
+            return "wait-status: poll=%s wait=%s, again=%s, wait4 calls=%s (expected %s)" % (d.get("pre"), d["status"], d["status2"], d["waits"], want_waits)
+        if d["stray"] != "none":
+            return "wait-status: wait returned but the child was not reaped (%s)" % d["stray"]
         return None
     # Err
     if not effective:
